@@ -829,12 +829,14 @@ func main() {
 	stage("records", runRecords)
 	stage("malformed", runMalformed)
 	stage("static", runStatic)
-	stage("snapshots", runSnapshots)
+	// geometry before snapshots: the snapshot stream's tie also runs the chunked-reader MODEL (rdrecs) over the generated
+	// read shape, and a model-only disagreement there must not keep the stream that shows the failing input from running
 	if r.Violations() == 0 {
 		stage("geometry", runGeometry)
 	} else {
 		r.Hit("geometry-stream-skipped(earlier streams already failed)")
 	}
+	stage("snapshots", runSnapshots)
 	if r.Violations() == 0 {
 		stage("fallback", runFallback)
 	} else {
